@@ -9,6 +9,7 @@ import (
 	"sort"
 	"strings"
 	"sync"
+	"time"
 
 	"verif/core"
 	"verif/props"
@@ -73,6 +74,8 @@ func invert(b []byte) {
 type c12div struct {
 	Impl     string   `json:"impl"`
 	Sig      string   `json:"sig"`
+	Base     string   `json:"sig_without_argument_class"`
+	ArgClass string   `json:"argument_class,omitempty"`
 	Step     int      `json:"step"`
 	Op       string   `json:"op"`
 	What     string   `json:"what"`
@@ -115,6 +118,23 @@ func classifyBytes(want, got []byte) string {
 type c12stats struct {
 	calls, panics, compared int64
 	features                map[string]struct{}
+	argClasses              map[string]int64 // ops per boundary class of their arguments
+}
+
+func newC12stats() c12stats {
+	return c12stats{features: map[string]struct{}{}, argClasses: map[string]int64{}}
+}
+
+func (t *c12stats) merge(st *c12stats) {
+	t.calls += st.calls
+	t.panics += st.panics
+	t.compared += st.compared
+	for f := range st.features {
+		t.features[f] = struct{}{}
+	}
+	for k, v := range st.argClasses {
+		t.argClasses[k] += v
+	}
 }
 
 // execHistory drives every implementation and the model through ops in
@@ -124,12 +144,25 @@ type c12stats struct {
 func execHistory(ops []Op, impls []*c12impl, pool, via string, st *c12stats) []c12div {
 	m := NewModel()
 	var divs []c12div
+	diffCls := "" // set before a list divergence is reported
 	report := func(im *c12impl, step int, o Op, kind, ctx, what, exp, obs string, soft bool) {
-		sig := im.name + "-" + kind
+		base := im.name + "-" + kind
 		if ctx != "" && strings.HasSuffix(kind, "-panics") { // the sharing context only qualifies panics
-			sig += "-" + ctx
+			base += "-" + ctx
 		}
-		divs = append(divs, c12div{Impl: im.name, Sig: sig, Step: step, Op: o.String(), What: what, Expected: exp,
+		// the boundary class of the arguments (shape of the name, region of the
+		// offset / length; for List the class of the missing or extra name) is
+		// part of the failing input class — unless the same history with plain
+		// arguments fails the same way (see generalize)
+		cls := opArgClass(o)
+		if kind == "list-wrong-names" {
+			cls = diffCls
+		}
+		sig := base
+		if cls != "" {
+			sig += "-" + cls
+		}
+		divs = append(divs, c12div{Impl: im.name, Sig: sig, Base: base, ArgClass: cls, Step: step, Op: o.String(), What: what, Expected: exp,
 			Observed: obs, Pool: pool, Via: via, History: opStrings(ops[:step+1]), Ops: ops[:step+1], Soft: soft})
 		if !soft {
 			im.dead = true
@@ -142,6 +175,10 @@ func execHistory(ops []Op, impls []*c12impl, pool, via string, st *c12stats) []c
 		}
 		if st != nil {
 			st.features[opFeature(m, o)] = struct{}{}
+			if cls := opArgClass(o); cls != "" {
+				st.features["arg-class/"+o.K+"/"+cls] = struct{}{}
+				st.argClasses[cls]++
+			}
 		}
 		var want opResult
 		if err := applyModel(m, o, &want); err != nil {
@@ -220,6 +257,7 @@ func execHistory(ops []Op, impls []*c12impl, pool, via string, st *c12stats) []c
 				names := append([]string(nil), got.Names...)
 				sort.Strings(names)
 				if strings.Join(names, "\x00") != strings.Join(want.Names, "\x00") || len(names) != len(want.Names) {
+					diffCls = listDiffClass(want.Names, names)
 					report(im, step, o, "list-wrong-names", "", "List returned another set of names than the model",
 						fmt.Sprintf("%q", want.Names), fmt.Sprintf("%q", names), false)
 					continue
@@ -451,31 +489,106 @@ func (e *c12env) shrink(d c12div, pool, via string) []Op {
 	return cur
 }
 
+// plainify replaces every shaped name / directory name of a history by a plain
+// one (consistently) and every far offset / huge length by an ordinary one.
+func plainify(ops []Op) []Op {
+	names, dirs := map[string]string{}, map[string]string{}
+	ren := func(m map[string]string, prefix, s string) string {
+		if s == "" || nameClass(s) == "" {
+			return s
+		}
+		if v, ok := m[s]; ok {
+			return v
+		}
+		m[s] = fmt.Sprintf("%s%d", prefix, len(m))
+		return m[s]
+	}
+	out := append([]Op(nil), ops...)
+	for i := range out {
+		o := &out[i]
+		o.Dir, o.Dir2 = ren(dirs, "zqd", o.Dir), ren(dirs, "zqd", o.Dir2)
+		o.Name, o.Name2 = ren(names, "zqn", o.Name), ren(names, "zqn", o.Name2)
+		if o.K == "readat" {
+			if o.Off >= 1<<31 {
+				o.Off = 100000
+			}
+			if o.Len >= 1<<31 {
+				o.Len = 70000
+			}
+		}
+	}
+	return out
+}
+
+// generalize: a divergence whose signature carries an argument class is
+// re-run with plain arguments; when the same implementation fails the same
+// way there, the class is not what makes it fail and the plain divergence is
+// reported instead.
+func (e *c12env) generalize(d c12div, pool, via string) (c12div, bool) {
+	if d.ArgClass == "" {
+		return d, false
+	}
+	plain := plainify(d.Ops)
+	if !validHistory(plain) {
+		return d, false
+	}
+	for _, x := range e.runOne(plain, pool, via, nil) {
+		if x.Impl == d.Impl && x.Base == d.Base && x.ArgClass == "" {
+			return x, true
+		}
+	}
+	return d, false
+}
+
 func runC12(r *core.Run) (bool, string) {
-	r.SetRule("a history is a seeded sequence of ≤40 valid calls over 2–3 directories and 4–6 simple names (plus closing calls, a complete read-back of every file through a fresh descriptor and a List of every directory), " +
+	r.SetRule("a history is a seeded sequence of ≤40 valid calls over 2–3 directories and 4–6 names (plus closing calls, a complete read-back of every file through a fresh descriptor and a List of every directory), " +
 		"executed in lock-step on a fresh MemFs, a fresh DirFs and the reference model; evaluations = API calls whose outcome was compared with the model (per implementation); " +
-		"distinct = set of (operation, outcome class, context) tuples reached: create exists/recreate, append data-size × file-size × link-count × descriptor-sharing context, readat offset class × length class × file size × context, delete/open/atomic by link count and open-descriptor count, link target-exists × cross-directory, list by entry count. " +
-		"pool A never has two descriptors open on one inode at once, pool B adds the descriptor-sharing patterns (two Opens, Open while the creator appends, close one then use the other)")
-	r.Assume("the DirFs root lives on the filesystem of $TMPDIR (ext4 here); names and directories are simple (no separator, no .tmp suffix, directory and file names disjoint) so DirFs's <root>/<name>.tmp staging of AtomicCreate is never hit by another name (that clause belongs to C13)")
-	r.Assume("only precondition-respecting calls are issued: Open/Delete/Link-source exist, descriptors are open and of the right mode, Mkdir only of new directories; lengths are bounded by file size + 70 000")
+		"distinct = set of (operation, outcome class, context) tuples reached: create exists/recreate, append data-size × file-size × link-count × descriptor-sharing context, readat offset class × length class × file size × context, delete/open/atomic by link count and open-descriptor count, link target-exists × cross-directory, list by entry count; plus (operation, argument class) for every boundary class of a name / directory name / offset (arg-class/…). " +
+		"pool A never has two descriptors open on one inode at once, pool B adds the descriptor-sharing patterns (two Opens, Open while the creator appends, close one then use the other). " +
+		"pool N is the same random mix (≤60 calls) over SHAPED names: 1–6 directories (half of them shaped), a stem together with 3–5 shapes of it (reserved-looking suffixes / prefixes / wrappings, the general shapes of staging names <name>.<digits>-<digits>.tmp, <name>.tmp, .<name>.tmp, <dir>.<name>.tmp …, a directory's own name, another case of the same letters, shell / URL / printf / glob characters, control characters, unicode incl. NFC/NFD and case-fold pairs, trailing dots and spaces, option-like names, lengths up to 255 bytes), nil as well as empty payloads, and a List of the directory after 75 % of the calls that add or remove a name. " +
+		"name matrix (pool N, seed picks stems and digits): every shape of the catalogue × 13 operation templates (Create/append/read/Delete; AtomicCreate new, replacing, empty, nil; Link to and from the name; the name beside its stem while the stem is written by AtomicCreate; the same name in three directories; the name as a directory name and as a file inside it; a directory of that name beside AtomicCreate of the stem; AtomicCreate over deleted-but-open and over open-for-append; refusals; the name beside its case variant), List after every call that adds or removes a name; every shape also as a directory name. " +
+		"further families: R one ReadAt per history at offsets around 2^31, 2^32, 2^40, 2^62, 2^63, 2^64 × lengths 0,1,2,4096,4097 (offset+length crossing 2^63 and wrapping 2^64) × file sizes 0,1,100,4096; K every order of the Closes of 2–3 descriptors of one file × every position of the Delete × name re-created by Create / AtomicCreate / not, all remaining descriptors used after every step; O AtomicCreate over a name that is open for append / open for read / open twice / linked elsewhere / linked and open / deleted but open / absent × old size 0,1,100 × new data nil, 0, 1, 100; T 0- and 1-byte files made in nine ways read at every small offset/length; " +
+		"L (in one child process per implementation, every history announced before it runs; a dead child is a violation) one ReadAt per history with length 0, 2^31±1, 2^32, 2^32+1, 2^47, 2^62, 2^63-1, 2^63, 2^64-4096, 2^64-1 at offsets 0 / mid-file / last byte / EOF / EOF+1 / EOF+4096 / 2^32 / 2^62 × file sizes 0,1,100,4096; " +
+		"M 13–400 (thorough: 3000) entries in one directory (short, 255-byte and mixed names; Create, Link, AtomicCreate) with List after filling, after deleting every other name and after refilling — sequential, so DirFs's multi-chunk List must be exact —, 200 descriptors open at once, 1 / 12 / 64 directories")
+	r.Assume("the DirFs root lives on the filesystem of $TMPDIR (ext4 here: case-sensitive, no unicode normalisation, NAME_MAX 255 bytes, any byte but '/' and NUL in a name); names are legal single path components (no separator, no NUL, not \".\" or \"..\", at most 255 bytes, valid UTF-8) — nothing else is reserved. Generated names never contain this process's id: an exact collision with a live staging file of DirFs.AtomicCreate is left to C13")
+	r.Assume("only precondition-respecting calls are issued: Open/Delete/Link-source exist, descriptors are open and of the right mode, Mkdir only of new directories; offsets and lengths of ReadAt are any uint64 (lengths from 2^31 on only in the child processes of family L, because an implementation that allocates the requested length dies with a fatal error)")
 	r.Assume("descriptor numbers are opaque: only distinctness among simultaneously open descriptors of one implementation is checked")
 
 	nA := r.Pick(6000, 150000)
 	nB := r.Pick(3000, 75000)
 	nG := r.Pick(400, 8000)
+	nN := r.Pick(2000, 60000)
 	if r.Replay != "" {
 		return c12Replay(r)
 	}
 
 	var mu sync.Mutex
-	total := c12stats{features: map[string]struct{}{}}
+	total := newC12stats()
 	pats := map[string]int{}
 	hashes := map[string]struct{}{}
 	shrunk := map[string]bool{}
 	divCount := map[string]int{}
+	generalizes := map[string]bool{} // signature with an argument class -> the plain history fails the same way
 
 	handle := func(env *c12env, ops []Op, pool, via string, divs []c12div) {
 		for _, d := range divs {
+			if d.ArgClass != "" {
+				mu.Lock()
+				g, seen := generalizes[d.Sig]
+				mu.Unlock()
+				if !seen {
+					orig := d.Sig
+					var x c12div
+					if x, g = env.generalize(d, pool, via); g {
+						d = x
+					}
+					mu.Lock()
+					generalizes[orig] = g
+					mu.Unlock()
+				} else if g {
+					d.Sig, d.ArgClass = d.Base, ""
+				}
+			}
 			mu.Lock()
 			divCount[pool+"/"+d.Sig]++
 			first := !shrunk[d.Sig]
@@ -490,46 +603,36 @@ func runC12(r *core.Run) (bool, string) {
 		}
 	}
 
-	type job struct {
-		pool   string
-		poolB  bool
-		global bool
-		n      int
-	}
-	jobs := []job{{"A", false, false, nA}, {"B", true, false, nB}}
-	for _, j := range jobs {
+	// runParallel executes n histories on 16 workers (methods, not the global
+	// wrappers: filesys.Fs is process-wide); item(i) yields the pool label and
+	// the body of history i.
+	runParallel := func(label string, n int, item func(i int) (pool string, body []Op, ps map[string]int), samples int) {
 		workers := 16
-		j := j
 		var wg sync.WaitGroup
 		ch := make(chan int)
 		for w := 0; w < workers; w++ {
 			wg.Add(1)
 			go func(w int) {
 				defer wg.Done()
-				env := &c12env{root: filepath.Join(r.Scratch, fmt.Sprintf("c12-%s-w%d", j.pool, w))}
-				st := c12stats{features: map[string]struct{}{}}
+				env := &c12env{root: filepath.Join(r.Scratch, fmt.Sprintf("c12-%s-w%d", label, w))}
+				st := newC12stats()
 				lp := map[string]int{}
 				var lh []string
 				for i := range ch {
-					body, ps := genHistory(r.Seed, j.poolB, i)
-					ops := append(body, finalOps(body)...)
-					divs := env.runOne(ops, j.pool, "methods", &st)
+					pool, body, ps := item(i)
+					ops := append(append([]Op(nil), body...), finalOps(body)...)
+					divs := env.runOne(ops, pool, "methods", &st)
 					for k, v := range ps {
 						lp[k] += v
 					}
 					lh = append(lh, historyHash(ops))
-					handle(env, ops, j.pool, "methods", divs)
-					if i < 3 {
-						r.Sample(8, map[string]interface{}{"pool": j.pool, "via": "methods", "index": i, "ops": opStrings(ops), "divergences": len(divs)})
+					handle(env, ops, pool, "methods", divs)
+					if i < samples {
+						r.Sample(14, map[string]interface{}{"pool": pool, "via": "methods", "index": i, "ops": opStrings(ops), "divergences": len(divs)})
 					}
 				}
 				mu.Lock()
-				total.calls += st.calls
-				total.panics += st.panics
-				total.compared += st.compared
-				for f := range st.features {
-					total.features[f] = struct{}{}
-				}
+				total.merge(&st)
 				for k, v := range lp {
 					pats[k] += v
 				}
@@ -539,18 +642,60 @@ func runC12(r *core.Run) (bool, string) {
 				mu.Unlock()
 			}(w)
 		}
-		for i := 0; i < j.n; i++ {
+		for i := 0; i < n; i++ {
 			ch <- i
 		}
 		close(ch)
 		wg.Wait()
-		r.Count("histories_pool_"+j.pool, int64(j.n))
+	}
+	secs := map[string]float64{}
+	lap := time.Now()
+	mark := func(k string) { secs[k] = time.Since(lap).Seconds(); lap = time.Now() }
+	runParallel("A", nA, func(i int) (string, []Op, map[string]int) { b, ps := genHistory(r.Seed, false, i); return "A", b, ps }, 3)
+	r.Count("histories_pool_A", int64(nA))
+	mark("pool_A")
+	runParallel("B", nB, func(i int) (string, []Op, map[string]int) { b, ps := genHistory(r.Seed, true, i); return "B", b, ps }, 3)
+	r.Count("histories_pool_B", int64(nB))
+	mark("pool_B")
+	// pool N: the random mix over shaped names and 1–6 (shaped) directories
+	runParallel("N", nN, func(i int) (string, []Op, map[string]int) { b, ps := genNameHistory(r.Seed, i); return "N", b, ps }, 3)
+	r.Count("histories_pool_N", int64(nN))
+	mark("pool_N")
+
+	// generated families (see c12names.go, c12families.go)
+	var famItems []c12item
+	{
+		nm, dropped := nameMatrix(r.Seed)
+		famItems = append(famItems, nm...)
+		r.Set("name_matrix_shapes", len(nameShapeCatalogue()))
+		r.Set("name_matrix_templates", len(nameTemplates()))
+		r.Set("name_matrix_cells_dropped_name_equals_stem_or_invalid", dropped)
+		famItems = append(famItems, readOffsetFamily()...)
+		famItems = append(famItems, closeInterleavingFamily()...)
+		famItems = append(famItems, atomicOverFamily()...)
+		famItems = append(famItems, tinyFileFamily()...)
+		famItems = append(famItems, manyFilesFamily(r.Seed, r.Quick())...)
+		famCount := map[string]int{}
+		for _, it := range famItems {
+			if !validHistory(it.body) {
+				panic("family " + it.family + " produced an invalid history: " + strings.Join(opStrings(it.body), ";"))
+			}
+			famCount[it.family]++
+		}
+		r.Set("family_histories", famCount)
+		// the big histories first, so that they do not form the tail
+		sort.SliceStable(famItems, func(a, b int) bool { return len(famItems[a].body) > len(famItems[b].body) })
+		runParallel("F", len(famItems), func(i int) (string, []Op, map[string]int) {
+			return famItems[i].pool, famItems[i].body, map[string]int{"family/" + famItems[i].family: 1}
+		}, 0)
+		r.Count("histories_families", int64(len(famItems)))
+		mark("families")
 	}
 
 	// directed layer (seed-independent), both ways of reaching the implementations
 	{
 		dA, dB := directedHistories()
-		st := c12stats{features: map[string]struct{}{}}
+		st := newC12stats()
 		for _, global := range []bool{false, true} {
 			via := "methods"
 			if global {
@@ -573,19 +718,14 @@ func runC12(r *core.Run) (bool, string) {
 			}
 			filesys.Fs = saved
 		}
-		total.calls += st.calls
-		total.panics += st.panics
-		total.compared += st.compared
-		for f := range st.features {
-			total.features[f] = struct{}{}
-		}
+		total.merge(&st)
 	}
 
 	// the same histories through the process-wide filesys.Fs and the
 	// package-level wrappers: one goroutine only
 	{
 		env := &c12env{root: filepath.Join(r.Scratch, "c12-global"), global: true}
-		st := c12stats{features: map[string]struct{}{}}
+		st := newC12stats()
 		saved := filesys.Fs
 		for i := 0; i < nG; i++ {
 			poolB := i%4 == 3
@@ -602,17 +742,53 @@ func runC12(r *core.Run) (bool, string) {
 				r.Sample(8, map[string]interface{}{"pool": pool, "via": "global-wrappers", "index": i, "ops": opStrings(ops), "divergences": len(divs)})
 			}
 		}
-		filesys.Fs = saved
-		total.calls += st.calls
-		total.panics += st.panics
-		total.compared += st.compared
-		for f := range st.features {
-			total.features[f] = struct{}{}
+		// pool N and a sample of the families through the wrappers too
+		nGN := 0
+		for i := 0; i < nG/4; i++ {
+			body, _ := genNameHistory(r.Seed, 2_000_000+i)
+			ops := append(body, finalOps(body)...)
+			divs := env.runOne(ops, "N", "global-wrappers", &st)
+			hashes[historyHash(ops)] = struct{}{}
+			handle(env, ops, "N", "global-wrappers", divs)
+			nGN++
 		}
+		for i, it := range famItems {
+			if i%10 != 3 || len(it.body) > 150 {
+				continue
+			}
+			ops := append(append([]Op(nil), it.body...), finalOps(it.body)...)
+			divs := env.runOne(ops, it.pool, "global-wrappers", &st)
+			handle(env, ops, it.pool, "global-wrappers", divs)
+			nGN++
+		}
+		r.Count("histories_global_wrappers_pool_N_and_families", int64(nGN))
+		filesys.Fs = saved
+		total.merge(&st)
 		r.Count("histories_global_wrappers", int64(nG))
 		r.Count("api_calls_through_global_wrappers", st.calls)
 	}
 
+	mark("directed_and_global_wrappers")
+	{
+		lenv := &c12env{root: filepath.Join(r.Scratch, "c12-lengths-generalize")}
+		st := runLengthFamily(r, func(d c12div) {
+			if x, g := lenv.generalize(d, d.Pool, "methods"); g {
+				d = x
+			}
+			mu.Lock()
+			divCount[d.Pool+"/"+d.Sig]++
+			first := !shrunk[d.Sig]
+			shrunk[d.Sig] = true
+			mu.Unlock()
+			if first {
+				r.Violate(d.Sig, fmt.Sprintf("%s diverges from the model at %s (%s): expected %s, observed %s; history: %s",
+					d.Impl, d.Op, d.What, d.Expected, d.Observed, strings.Join(d.History, " ; ")), d)
+			}
+		})
+		total.merge(&st)
+		mark("length_family_children")
+	}
+	r.Set("section_seconds", secs)
 	r.Eval(int(total.compared))
 	for f := range total.features {
 		r.Distinct(f)
@@ -621,6 +797,7 @@ func runC12(r *core.Run) (bool, string) {
 	r.Set("panics_observed_and_compared", total.panics)
 	r.Set("distinct_histories", len(hashes))
 	r.Set("pattern_instances", pats)
+	r.Set("calls_by_argument_class", total.argClasses)
 	r.Set("divergences_by_pool_and_sig", divCount)
 	silentA := true
 	for k := range divCount {
@@ -640,7 +817,7 @@ func c12Replay(r *core.Run) (bool, string) {
 		return false, "replay file unreadable"
 	}
 	env := &c12env{root: filepath.Join(r.Scratch, "c12-replay"), global: via == "global-wrappers"}
-	st := c12stats{features: map[string]struct{}{}}
+	st := newC12stats()
 	divs := env.runOne(ops, pool, via, &st)
 	for _, d := range divs {
 		r.Violate(d.Sig, fmt.Sprintf("%s diverges from the model at %s (%s): expected %s, observed %s", d.Impl, d.Op, d.What, d.Expected, d.Observed), d)
